@@ -11,7 +11,7 @@ Definition check (prop : Z) (inp impl : sx) : sx :=
   if (prop =? 12) && ((kind_of inp =? 1) || (kind_of inp =? 30)) then check_c12 inp impl
   else match kind_of inp with
        | 1 => check_eng prop inp impl
-       | 2 => check_doc prop inp impl
+       | 2 | 31 => check_doc prop inp impl
        | 3 | 4 | 5 | 6 | 28 => check_pol prop inp impl
        | 7 => check_drv prop inp impl
        | 8 | 9 | 10 | 11 | 12 | 22 | 23 | 24 | 25 | 27 => check_par prop inp impl
